@@ -302,6 +302,16 @@ FEATURES = [
     (36, None, 'resourceless request group',
      cand('resources_A=VCPU:1&required_X=%s&same_subtree=_A,_X'
           '&group_policy=none' % T1), st(200)),
+    # request groups without resources exist only from 1.36 and only when
+    # named in same_subtree: on their own they are never accepted
+    (40, None, 'resourceless group with only a forbidden trait',
+     cand('resources=VCPU:1&required1=!CUSTOM_T2'), st(200)),
+    (40, None, 'resourceless group with only in_tree',
+     cand('resources=VCPU:1&in_tree1=' + U(1)), st(200)),
+    (40, None, 'resourceless group with only member_of',
+     cand('resources=VCPU:1&member_of1=' + AGG(1)), st(200)),
+    (40, None, 'resourceless group with only a required trait',
+     cand('resources=VCPU:1&required1=' + T1), st(200)),
     (37, None, 're-parenting via PUT',
      ('PUT', '/resource_providers/' + U(2),
       {'name': 'p2', 'parent_provider_uuid': U(3)}), st(200)),
